@@ -247,6 +247,8 @@ def rxDeliver (s : Sys) (p : List Nat) (pduIdx : Nat) : Sys × RxResult :=
   | some k =>
     if k ≥ s.n then (s, .errInvalidIndex k) else
     if (s.slot k).st ≠ .sent then (s, .errInvalidIndex k) else
+    -- (the marker is re-checked once the frame is held and the claim handed back on a mismatch: within one
+    --  uninterrupted call the lookup's answer still stands; the interleaved case is in Micro.lean: rxVerify/rxUnclaim)
     -- copy into pdu_buf_mut().get_mut(0..len); the claim is not rolled back on failure
     if s.data - 16 < p.length then (s.setSlot k { s.slot k with st := .rxBusy }, .errInternal) else
     -- mark_received: RxBusy → RxDone, wake
